@@ -364,9 +364,10 @@ pub fn evaluate_ast(
             collect_free_variables(body, &mut referenced_vars, &mut bound);
 
             for var in referenced_vars {
-                if let Some(value) = bindings.get(&var)
-                    && !is_built_in_function(&var)
-                {
+                // A free name can be spelled like a built-in only through the record
+                // shorthand `{sqrt}` (a plain identifier of that spelling parses as the
+                // built-in), and the shorthand reads the variable: capture it like any other
+                if let Some(value) = bindings.get(&var) {
                     captured_scope.insert(var.clone(), value);
                 }
             }
